@@ -634,7 +634,6 @@ func checkBodyAssigned(c *Ctx, ev *tmpl.Evaluator) {
 		"with {"+bad+"} true no `param = body` assignment is emitted: the request body is decoded and then dropped, the handler receives an empty parameter")
 }
 
-
 // checkBodyStreamNotClosed: a streamed body (format: binary) is handed to the handler as r.Body;
 // BindRequest must not schedule its closing — the handler reads it after BindRequest returned.
 func checkBodyStreamNotClosed(c *Ctx, ev *tmpl.Evaluator) {
